@@ -1,5 +1,6 @@
 pub mod c01;
 pub mod c02;
+pub mod c04;
 pub mod c05;
 pub mod c06;
 pub mod c07;
@@ -23,6 +24,7 @@ pub fn run(p: &Params) -> Report {
     match p.property.as_str() {
         "C01" => c01::run(p),
         "C02" => c02::run(p),
+        "C04" => c04::run(p),
         "C05" => c05::run(p),
         "C06" => c06::run(p),
         "C07" => c07::run(p),
